@@ -221,7 +221,7 @@ Theorem aug_pred_chain (ms : main_state) (s' : aug_state) (j1 : nat) :
   aug_loop (S (S n)) r n inf rows y v (mkAug d pred (m_done ms) ontodo (map fst row_r) [] [] inf) = Some (s', j1) ->
   (j1 < n)%nat /\ getn y j1 n = n /\ length (g_pred s') = n /\ length (g_done s') = n /\ length (g_ontodo s') = n /\
   exists chain, chain_ok r n (g_pred s') x j1 chain /\ NoDup chain /\ (length chain <= S n)%nat /\
-    forall i, In i chain -> i = r \/ exists j', (j' < n)%nat /\ i = getn y j' n /\ i <> n.
+    forall i, In i chain -> i = r \/ exists j', In j' (g_ready s') /\ (j' < n)%nat /\ i = getn y j' n /\ i <> n /\ getn x i n = j'.
 Proof.
   intros Lx Ly Hr Fr PI Ld Lo Lp. cbn zeta.
   pose proof (aug_init_row_marks r n rows v Rfin (rowget rows r) (repeat inf n) (m_ontodo ms) (m_pred ms) (fun j c H => Rfin r j c H) Lo) as AI.
@@ -252,7 +252,8 @@ Proof.
     apply nodup_bound; [apply NoDup_rev in NR; rewrite rev_involutive in NR; exact NR|].
     intros j Hj. apply Hrs. apply in_app_iff. left. exact Hj.
   - intros i Hi. destruct (Desc i Hi) as [H|[j' [Hj' E']]]; [left; auto|right].
-    destruct (HL j' Hj') as [A1' [A2' _]]. exists j'. split; auto. split; auto. lia.
+    destruct (HL j' Hj') as [A1' [A2' [_ A4']]]. exists j'. split; [apply in_rev; exact Hj'|]. split; auto. split; auto. split; [lia|].
+    rewrite E'. exact A4'.
 Qed.
 
 (* aug_flip_full: so the flip loop of aug_row never takes its out-of-fuel exit, and afterwards x / y are again partial
@@ -266,17 +267,20 @@ Theorem aug_flip_full (ms : main_state) (s' : aug_state) (j1 : nat) :
   exists x' y', aug_flip (S n) r (g_pred s') j1 x y n = Some (x', y') /\ length x' = n /\ length y' = n /\
     PIh n x' y' None /\ (exists j, (j < n)%nat /\ getn y' j n = r) /\
     getn y' j1 n <> n /\ (forall j, getn y j n <> n -> getn y' j n <> n) /\
-    (forall i', i' <> r -> free n y i' -> free n y' i').
+    (forall i', i' <> r -> free n y i' -> free n y' i') /\
+    (forall j, getn y' j n = getn y j n \/ (getn y' j n = getn (g_pred s') j n /\ (In j (g_ready s') \/ j = j1))).
 Proof.
   intros Lx Ly Hr Fr PI Ld Lo Lp.
   pose proof (aug_pred_chain ms s' j1 Lx Ly Hr Fr PI Ld Lo Lp) as APC. cbn zeta in *.
   destruct (aug_init_row r v (rowget rows r) (repeat inf n) (m_ontodo ms) (m_pred ms)) as [[d o] p].
   intros E. destruct (APC E) as [Hj1 [Hy1 [_ [_ [_ [chain [OK [ND [Len Desc]]]]]]]]].
-  destruct (aug_flip_inverse r n (g_pred s') chain j1 x y (S n) ND Lx Ly OK Len) as [x' [y' [EF [Lx' [Ly' [PI' [Hr' [Hj1' [Keep Src]]]]]]]]]; auto.
+  destruct (aug_flip_inverse r n (g_pred s') chain j1 x y (S n) ND Lx Ly OK Len) as [x' [y' [EF [Lx' [Ly' [PI' [Hr' [Hj1' [Keep [Src Src2]]]]]]]]]]; auto.
   { intros j i Hj _ Ey Ne. apply (PI j i Hj ltac:(discriminate) Ey Ne). }
-  exists x', y'. split; auto. split; auto. split; auto. split; auto. split; auto. split; auto. split; auto.
-  intros i' Ni Fi j Hj E'. destruct (Src j) as [H|H].
-  - apply (Fi j Hj). rewrite <- H. exact E'.
-  - rewrite E' in H. destruct (Desc i' H) as [H'|[j' [Hj' [Ey _]]]]; [contradiction|]. apply (Fi j' Hj'). auto.
+  exists x', y'. split; auto. split; auto. split; auto. split; auto. split; auto. split; auto. split; auto. split.
+  - intros i' Ni Fi j Hj E'. destruct (Src j) as [H|H].
+    + apply (Fi j Hj). rewrite <- H. exact E'.
+    + rewrite E' in H. destruct (Desc i' H) as [H'|[j' [_ [Hj' [Ey _]]]]]; [contradiction|]. apply (Fi j' Hj'). auto.
+  - intros j. destruct (Src2 j) as [H|[H1 [H2|[i [Hi [Ni Ej]]]]]]; [left; exact H|right; split; auto|right; split; auto].
+    destruct (Desc i Hi) as [H'|[j' [Hr1 [_ [_ [_ Hx]]]]]]; [contradiction|]. left. rewrite Ej, Hx. exact Hr1.
 Qed.
 End Pred.
